@@ -296,6 +296,10 @@ func c03GenPattern(r interface{ Intn(int) int }) string {
 				continue
 			}
 		}
+		if r.Intn(12) == 0 {
+			segs = append(segs, "k:v") // a literal that merely contains a colon
+			continue
+		}
 		segs = append(segs, c03Lits[r.Intn(len(c03Lits))])
 	}
 	return "/" + strings.Join(segs, "/")
@@ -393,8 +397,9 @@ func TestVerifC03Router(t *testing.T) {
 				segs := strings.Split(path.Clean(reg.Pattern), "/")
 				for i, sg := range segs {
 					if strings.HasPrefix(sg, ":") {
-						// a letter, the parameter's own spelling, or another parameter-looking segment
-						segs[i] = []string{"a", "b", "c", "z", sg, ":q"}[r.Intn(6)]
+						// a letter, the parameter's own spelling, another parameter-looking segment, a literal with a
+						// colon inside, or text that still looks percent-encoded after the URL was decoded once
+						segs[i] = []string{"a", "b", "c", "z", sg, ":q", "k:v", "%41", "a%20b", "..%2F", "100%"}[r.Intn(11)]
 					}
 				}
 				extra = append(extra, strings.Join(segs, "/"))
